@@ -221,6 +221,7 @@ fn read_all_noargs<'a>(o: &mut Obs, env: &Env, d: FontData<'a>, only_small: bool
 }
 
 fn cmap_subtable(o: &mut Obs, t: &tables::cmap::CmapSubtable) {
+    use tables::cmap::Cmap12IterLimits;
     use tables::cmap::CmapSubtable::*;
     o.d.u32(t.language());
     match t {
@@ -229,8 +230,7 @@ fn cmap_subtable(o: &mut Obs, t: &tables::cmap::CmapSubtable) {
                 o.helper("Cmap4::map_codepoint");
                 o.opt(&t.map_codepoint(cp));
             }
-            o.helper("Cmap4::iter");
-            o.d.u64(t.iter().take(3000).map(|(c, g)| c as u64 ^ ((g.to_u32() as u64) << 32)).fold(0, |a, b| a.wrapping_mul(31).wrapping_add(b)));
+            h_core::cmap4_iter(o, t, 3000);
         }
         Format12(t) => {
             for cp in crate::sets::CODEPOINTS {
@@ -239,7 +239,9 @@ fn cmap_subtable(o: &mut Obs, t: &tables::cmap::CmapSubtable) {
             }
             o.helper("Cmap12::iter");
             o.d.u64(t.iter().take(3000).map(|(c, g)| c as u64 ^ ((g.to_u32() as u64) << 32)).fold(0, |a, b| a.wrapping_mul(31).wrapping_add(b)));
-            o.d.u64(t.iter_with_limits(Default::default()).take(3000).count() as u64);
+            for lim in [Cmap12IterLimits::default(), Cmap12IterLimits { max_char: 0xFFFF, glyph_count: 300 }] {
+                h_core::cmap12_iter_with_limits(o, t, lim, 3000);
+            }
         }
         Format14(t) => {
             for cp in crate::sets::CODEPOINTS.iter().take(8) {
@@ -248,8 +250,7 @@ fn cmap_subtable(o: &mut Obs, t: &tables::cmap::CmapSubtable) {
                     o.opt(&t.map_variant(*cp, s));
                 }
             }
-            o.helper("Cmap14::iter");
-            o.d.u64(t.iter().take(3000).count() as u64);
+            h_core::cmap14_iter(o, t, 3000);
         }
         _ => {}
     }
@@ -258,7 +259,7 @@ fn cmap_subtable(o: &mut Obs, t: &tables::cmap::CmapSubtable) {
 /// Read `data` as the table named by `tag` with every external-argument
 /// variant, and optionally as every other type.
 pub fn walk_payload(data: &[u8], tag: [u8; 4], real: &RealArgs, cross: bool, cfg: &WalkCfg) -> Obs {
-    let mut obs = Obs::new(cfg.field_budget);
+    let mut obs = Obs::for_cfg(cfg);
     let dummy = match FontRef::new(&EMPTY_SFNT) {
         Ok(f) => f,
         Err(_) => return obs,
@@ -444,7 +445,9 @@ pub fn walk_payload(data: &[u8], tag: [u8; 4], real: &RealArgs, cross: bool, cfg
                 for len in [0u32, 1, data.len() as u32, data.len() as u32 + 1, u32::MAX] {
                     o.helper("Metadata::read_with_args");
                     match Metadata::read_with_args(d, &(Tag::new(t), len)) {
-                        Ok(Metadata::ScriptLangTags(v)) => o.d.u64(v.iter().take(4096).count() as u64),
+                        Ok(Metadata::ScriptLangTags(v)) => {
+                            o.drain("Metadata::ScriptLangTags.iter", "data_length", (len as u64).min(data.len() as u64), 4096, v.iter(), |_, _| {});
+                        }
                         Ok(Metadata::Other(b)) => o.d.u64(b.len() as u64),
                         Err(e) => o.err(&e),
                     }
@@ -471,7 +474,7 @@ pub fn walk_payload(data: &[u8], tag: [u8; 4], real: &RealArgs, cross: bool, cfg
 /// Typed scan: read small subtable types at every 2-byte offset of `data`
 /// (up to `max_offsets`), with their typed helpers.
 pub fn scan_payload(data: &[u8], max_offsets: usize, real: &RealArgs, cfg: &WalkCfg) -> Obs {
-    let mut o = Obs::new(cfg.field_budget);
+    let mut o = Obs::for_cfg(cfg);
     let dummy = match FontRef::new(&EMPTY_SFNT) {
         Ok(f) => f,
         Err(_) => return o,
